@@ -21,7 +21,10 @@ for d in sorted(os.listdir(os.path.join(V, "seeded"))):
         elif r.get("detected"):
             parts.append("caught by the %s: %s" % (label, re.sub(r"\s+", " ", r.get("first", ""))[6:100]))
         else:
-            parts.append("MISSED by the %s (exit %s)" % (label, r.get("exit")))
+            if r.get("exit") == 2:
+                parts.append("inconclusive in the %s (exit 2: a harness failed or timed out without a natively replayed counterexample; never reported as held)" % label)
+            else:
+                parts.append("MISSED by the %s (exit %s)" % (label, r.get("exit")))
     rows.append("| %s | %s | %s |" % (d, site, ("; ".join(parts) or "not run").replace("|", "/")))
 print("| mutation | site | result |\n|---|---|---|")
 print("\n".join(rows))
